@@ -111,6 +111,7 @@ func (m *Mutex) TryLock() bool {
 	}
 	vrt.SyncPoint("Mutex.TryLock")
 	if m.locked {
+		vrt.Observe(0)
 		return false
 	}
 	m.locked = true
